@@ -7,6 +7,7 @@ package storage
 // state machine is asynchronous and needs the FSM-apply gate.
 
 import (
+	"strings"
 	"fmt"
 	"os"
 	"testing"
@@ -221,6 +222,10 @@ func TestVerifC08(t *testing.T) {
 		}
 		var plains, txs []txc.Program
 		for _, p := range tmpl {
+			if !vout.Thorough() && strings.Count(p.Name, "l") >= 2 && strings.Contains(p.Name, "lp(d/,,") && len(p.Steps) == 5 {
+				// the repeated-listing programs take part in all pairs; in triples only in the thorough tier
+				continue
+			}
 			if p.Steps[0].Op == "begin" || p.Steps[0].Op == "beginro" {
 				txs = append(txs, p)
 			} else {
